@@ -23,7 +23,8 @@ SCRATCH_ROOT = os.environ.get("SWIMVERIFY_SCRATCH", "/var/tmp/swimverify")
 
 
 def sync_scratch():
-    dst = os.path.join(SCRATCH_ROOT, "repo")
+    # one scratch copy per process: two runs must never share (and overwrite) a tree while facts are being extracted from it
+    dst = os.path.join(SCRATCH_ROOT, "repo-%d" % os.getpid())
     os.makedirs(dst, exist_ok=True)
     subprocess.check_call(["rsync", "-a", "--delete", "--exclude", "/target", "--exclude", "/.git", REPO + "/", dst + "/"])
     return dst
@@ -97,7 +98,7 @@ def main():
             else:
                 summary["failed"].append(f)
     if "--keep" not in sys.argv:
-        shutil.rmtree(os.path.join(SCRATCH_ROOT, "repo"), ignore_errors=True)
+        shutil.rmtree(scratch, ignore_errors=True)
     print(json.dumps(summary))
     return 0 if not summary["failed"] else 1
 
